@@ -62,6 +62,15 @@ def gen(rng, tier):
         rows2 = list(i1["rows"])
         rows2[a], rows2[b] = rows2[b], rows2[a]
         cases.append({"multi": [i1, dict(i1, rows=rows2)], "history": True})
+    # WIDE conjunctions: a row needing five (or all six) units, next to narrower rows -- the pairings of its units must all be known
+    # to the leaf selection
+    for _ in range({"quick": 2, "search": 3, "thorough": 8}[tier]):
+        n = rng.choice([5, 6])
+        wide = sorted(rng.sample(range(n), 5))
+        rows = [wide] + [sorted(rng.sample(range(n), rng.randint(1, 2))) for _ in range(rng.randint(0, 2))]
+        rng.shuffle(rows)
+        cases.append({"n": n, "rows": rows, "labels": [rng.randrange(2) for _ in rows], "dist": rng.sample(range(1, 20), len(rows)),
+                      "K": 1, "C": 2})
     cases.append(rand_instance(rng, n_units=1, K=1, C=1, chain=True))
     return cases
 
